@@ -44,6 +44,7 @@ type fakeTimer struct {
 	ch       chan time.Time
 	stopped  bool
 	fired    bool
+	firedAt  int // clock value delivered through ch
 }
 
 func (t *fakeTimer) Stop() bool {
@@ -85,8 +86,18 @@ type fakeClock struct {
 
 func (c *fakeClock) Now() time.Time {
 	c.mu.Lock()
-	defer c.mu.Unlock()
-	return tickTime(c.now)
+	now := c.now
+	c.mu.Unlock()
+	// Remember what worker threads read: the scheduler measures a worker's
+	// silence from the value its Synchronize call last passed to enter().
+	if len(c.w.cfg.Workers) > 0 {
+		if a := c.w.currentActor(); a != nil && a.wk != nil {
+			c.w.mu.Lock()
+			a.noteClockValue(now)
+			c.w.mu.Unlock()
+		}
+	}
+	return tickTime(now)
 }
 
 func (c *fakeClock) tick() int {
